@@ -470,3 +470,47 @@ def implicit_raise_sites(model: Model, fi: FuncInfo) -> list[tuple[ast.Call, str
         if label and not protected(n, label):
             out.append((n, label))
     return out
+
+
+def prev_minus_new(model: Model, fi: FuncInfo) -> dict:
+    """Shape shared by OutgoingRIB.replace_restart / replace_reload: a dict filled from the `previous` routes by
+    index, pruned by the index of every `new` route, and whatever is left handed to del_from_rib.  Local names are
+    free; the two route lists are the second and third parameter."""
+    from ..alpha import afind, amatch
+
+    params = [a.arg for a in fi.node.args.args]
+    prev, new = (params[1], params[2]) if len(params) >= 3 else ('?', '?')
+    out: dict = {'table': None, 'filled': False, 'pruned': False, 'withdrawn': [], 'prune_nodes': []}
+    loops = [n for n in walk_no_nested(fi.node) if isinstance(n, ast.For)]
+    for lp in loops:
+        if isinstance(lp.iter, ast.Name) and lp.iter.id == prev and isinstance(lp.target, ast.Name):
+            for n, b in afind('V_x[V_r.index()] = V_r', lp, {'V_r': lp.target.id}):
+                out['table'] = b['V_x']
+                out['filled'] = True
+    x = out['table']
+    if x is None:
+        return out
+    for lp in loops:
+        if isinstance(lp.iter, ast.Name) and lp.iter.id == new and isinstance(lp.target, ast.Name):
+            for pat in ('V_x.pop(V_n.index(), None)', 'V_x.pop(V_n.index())'):
+                for n, b in afind(pat, lp, {'V_x': x, 'V_n': lp.target.id}):
+                    out['pruned'] = True
+                    out['prune_nodes'].append(n)
+            for n in walk_no_nested(lp):
+                if isinstance(n, ast.Delete) and any(amatch('V_x[V_n.index()]', t, {'V_x': x, 'V_n': lp.target.id}) is not None for t in n.targets):
+                    out['pruned'] = True
+                    out['prune_nodes'].append(n)
+    for lp in loops:
+        if not isinstance(lp.target, ast.Name):
+            continue
+        k = lp.target.id
+        over_keys = any(amatch(p, lp.iter, {'V_x': x}) is not None for p in ('list(V_x)', 'list(V_x.keys())', 'sorted(V_x)'))
+        over_vals = any(amatch(p, lp.iter, {'V_x': x}) is not None for p in ('list(V_x.values())', 'V_x.values()', 'tuple(V_x.values())'))
+        for c in model.calls_to(fi.module, lp, 'OutgoingRIB.del_from_rib'):
+            if not c.args:
+                continue
+            if over_keys and any(amatch(p, c.args[0], {'V_x': x, 'V_k': k}) is not None for p in ('V_x.pop(V_k)', 'V_x[V_k]')):
+                out['withdrawn'].append(c)
+            elif over_vals and isinstance(c.args[0], ast.Name) and c.args[0].id == k:
+                out['withdrawn'].append(c)
+    return out
